@@ -44,6 +44,7 @@ type c14Vec struct {
 	} `json:"builtins"`
 }
 
+var c14IdCalls int
 var c14Log []c14Call
 var c14View []string // what the jet.Func saw through the Arguments API
 
@@ -71,6 +72,7 @@ func c14Init() {
 	s.AddGlobal("recv0", func(r ...string) string { return c14Rec("recv0", r...) })
 	s.AddGlobal("sw", jet.SafeWriter(func(w io.Writer, b []byte) { w.Write([]byte("{" + string(b) + "}")) }))
 	s.AddGlobal("gnilv", nil)
+	s.AddGlobalFunc("idv", func(a jet.Arguments) reflect.Value { c14IdCalls++; return a.Get(0) })
 	s.AddGlobal("obj", c14Obj{})
 	s.AddGlobal("pobj", &c14Obj{})
 	s.AddGlobalFunc("jf", func(a jet.Arguments) reflect.Value {
@@ -369,6 +371,18 @@ func c14Tables(v *c14Vec) Result {
 			}
 			return Result{Sig: sig, Observed: out, Expected: want, Key: "tables",
 				Detail: fmt.Sprintf("%s rendered %q (err %v); %s gives %q", src, out, err, bi.Go, want)}
+		}
+		// every argument expression of a call is evaluated exactly once (idv is an identity function that counts)
+		wrapped := make([]string, len(bi.Args))
+		for i, x := range bi.Args {
+			wrapped[i] = "idv(" + x + ")"
+		}
+		c14IdCalls = 0
+		src2 := "{{ " + bi.Name + "(" + strings.Join(wrapped, ", ") + ") | isset }}"
+		if _, err := c14Render(src2); err == nil && c14IdCalls != len(bi.Args) {
+			sig["kind"] = "argeval"
+			return Result{Sig: sig, Observed: c14IdCalls, Expected: len(bi.Args), Key: "tables",
+				Detail: fmt.Sprintf("%s evaluated its %d argument expressions %d times", src2, len(bi.Args), c14IdCalls)}
 		}
 	}
 	// the same parsed template executed with the callee rebound (and rebound inside a loop):
